@@ -105,6 +105,7 @@ type armResult struct {
 	writes map[*Value]Value
 	order  []*Value
 	phis   []Value
+	ret    Value
 }
 
 func nphis(b *ssa.BasicBlock) int {
@@ -154,7 +155,9 @@ func (w *Worker) runArm(fr *Frame, from, succ, j *ssa.BasicBlock, cond *Term, js
 	saveDepth := w.depth
 	saveStack := len(w.stackDesc)
 	w.pc = append(w.pc, cond)
-	w.modelOK = false
+	if holds, ok := w.evalUnderModel(cond); !ok || !holds {
+		w.modelOK = false
+	}
 	fr.prev = from
 	fr.block = succ
 	fr.phiOverride = nil
@@ -180,17 +183,35 @@ func (w *Worker) runArm(fr *Frame, from, succ, j *ssa.BasicBlock, cond *Term, js
 		}
 	}()
 	w.armBudget = saveSteps + int64(w.eng.cfg.MaxArmSteps)
-	if succ != j {
-		w.run(fr, j)
+	var phis []Value
+	var ret Value
+	if j == nil {
+		// return-merge: the arm must end by returning from this frame
+		fr.armRet++
+		fr.done = false
+		func() {
+			defer func() { fr.armRet-- }()
+			w.run(fr, nil)
+		}()
+		if !fr.done {
+			w.abort("mergefail", "arm did not return")
+		}
+		ret = fr.result
+		fr.done = false
+		fr.result = nil
+	} else {
+		if succ != j {
+			w.run(fr, j)
+		}
+		phis = w.phiOperands(fr, j)
 	}
-	phis := w.phiOperands(fr, j)
 	// registers that existed before must not have been overwritten (loop back to before the branch)
 	for i, v := range regsBefore {
 		if v != nil && !sameReg(fr.regs[i], v) {
 			w.abort("mergefail", "arm overwrote an earlier register")
 		}
 	}
-	ar := &armResult{writes: map[*Value]Value{}, phis: phis}
+	ar := &armResult{writes: map[*Value]Value{}, phis: phis, ret: ret}
 	for i := jstart; i < len(w.journal); i++ {
 		p := w.journal[i].p
 		if _, seen := ar.writes[p]; !seen {
@@ -223,56 +244,38 @@ func sameReg(a, b Value) bool {
 }
 
 // tryMerge returns the join block when the If at the end of b was merged, nil otherwise.
-func (w *Worker) tryMerge(fr *Frame, b *ssa.BasicBlock, c *Term, stop *ssa.BasicBlock) *ssa.BasicBlock {
+func (w *Worker) tryMerge(fr *Frame, b *ssa.BasicBlock, c *Term, stop *ssa.BasicBlock) (*ssa.BasicBlock, bool) {
 	if !w.eng.cfg.Merge {
-		return nil
+		return nil, false
 	}
 	j := fr.info.ipdo[b]
-	if j == nil {
-		return nil
+	if j == nil && (stop != nil || len(fr.defers) > 0) {
+		// return-merge only at top level of a frame's arm structure
+		return nil, false
 	}
 	k := w.decIdx
 	replay := k < len(w.prefix)
 	if replay && !w.prefix[k].Merge {
-		return nil
+		return nil, false
 	}
 	if !replay {
 		if w.eng.mergeBlacklisted(b) {
-			return nil
+			return nil, false
 		}
 	}
 	// both arms must be feasible, otherwise it is a forced branch (let branch() handle it)
 	saveDecIdx, saveDecs := w.decIdx, len(w.decs)
 	w.decIdx++
 	w.decs = append(w.decs, Decision{Merge: true})
-	if !replay {
-		if cur, ok := w.evalUnderModel(c); ok {
-			var r Result
-			if cur {
-				r, _ = w.feasible(w.tt.Not(c), false)
-			} else {
-				r, _ = w.feasible(c, false)
-			}
-			if r == Unsat {
-				w.decIdx, w.decs = saveDecIdx, w.decs[:saveDecs]
-				return nil
-			}
-		} else {
-			r1, _ := w.feasible(c, false)
-			r2, _ := w.feasible(w.tt.Not(c), false)
-			if r1 == Unsat || r2 == Unsat {
-				w.decIdx, w.decs = saveDecIdx, w.decs[:saveDecs]
-				return nil
-			}
-		}
-	}
+	// No feasibility pre-check: merging with an infeasible arm is sound (the ite guard is then constant under the
+	// path condition); an arm that misbehaves because it is infeasible makes the merge fail and branch() decides.
 	outerJ := w.journalOn
 	jstart := len(w.journal)
 	w.journalOn = true
 	w.mergeLvl++
 	regsBefore := append([]Value{}, fr.regs...)
 	saveBudget := w.armBudget
-	fail := func() *ssa.BasicBlock {
+	fail := func() (*ssa.BasicBlock, bool) {
 		w.mergeLvl--
 		w.journalOn = outerJ
 		w.armBudget = saveBudget
@@ -283,7 +286,9 @@ func (w *Worker) tryMerge(fr *Frame, b *ssa.BasicBlock, c *Term, stop *ssa.Basic
 		}
 		w.eng.noteMergeFail(b)
 		w.mstats.fail++
-		return nil
+		fr.done = false
+		fr.result = nil
+		return nil, false
 	}
 	aT, ok := w.runArm(fr, b, b.Succs[0], j, c, jstart, regsBefore)
 	if !ok {
@@ -292,6 +297,14 @@ func (w *Worker) tryMerge(fr *Frame, b *ssa.BasicBlock, c *Term, stop *ssa.Basic
 	aE, ok := w.runArm(fr, b, b.Succs[1], j, w.tt.Not(c), jstart, regsBefore)
 	if !ok {
 		return fail()
+	}
+	var mret Value
+	if j == nil {
+		m, ok := w.mergeVal(c, aT.ret, aE.ret)
+		if !ok {
+			return fail()
+		}
+		mret = m
 	}
 	// merge phis
 	var phis []Value
@@ -336,13 +349,18 @@ func (w *Worker) tryMerge(fr *Frame, b *ssa.BasicBlock, c *Term, stop *ssa.Basic
 	for _, u := range upds {
 		w.setSlot(u.p, u.v)
 	}
+	w.mstats.ok++
+	fr.block = b
+	if j == nil {
+		fr.result = mret
+		fr.done = true
+		return nil, true
+	}
 	fr.phiOverride = phis
 	if phis == nil && nphis(j) > 0 {
 		panic("merge: missing phis")
 	}
-	w.mstats.ok++
-	fr.block = b
-	return j
+	return j, false
 }
 
 func (w *Worker) mergeVal(c *Term, a, b Value) (Value, bool) {
